@@ -39,6 +39,12 @@ Definition chk_seq (c : seq_case) : bool :=
   let '(st, e) := run bk init evs in
   list_eqb pz_eqb (out st) iout && list_eqb poll_eqb (polls st) ipolls && opt_eqb err_eqb e ierr &&
   (if tuner then run_disc bk init evs else true).
+(* script based SimulatorBackend: events with ResumeScript (the model slices std.out itself) *)
+Definition s_case := (list sev * list (list (nat * Z) * list (nat * status)))%type.
+Definition chk_s (c : s_case) : bool :=
+  let '(evs, ipolls) := c in
+  let '(st, e) := srun init evs in
+  list_eqb poll_eqb (polls st) ipolls && opt_eqb err_eqb e None.
 (* tabular resume: checkpointing, paused level, table rows (level, payload), implementation rows *)
 Definition zz_eqb (a b : Z * Z) : bool := Z.eqb (fst a) (fst b) && Z.eqb (snd a) (snd b).
 Definition tab_case := (bool * option Z * list (Z * Z) * list (Z * Z))%type.
@@ -652,6 +658,245 @@ def tuner_cases(ctx, replay, sim):
 
 
 # ----------------------------------------------------------------------------------------------
+# C2. the script based SimulatorBackend: _run_job_and_collect_results slices std.out on resume
+# ----------------------------------------------------------------------------------------------
+TRAIN_SCRIPT = """
+import argparse, json, os
+p = argparse.ArgumentParser()
+p.add_argument("--epochs", type=int)
+p.add_argument("--ckpt", type=int)
+p.add_argument("--tid", type=int)
+p.add_argument("--st_checkpoint_dir", type=str)
+a, _ = p.parse_known_args()
+os.makedirs(a.st_checkpoint_dir, exist_ok=True)
+ck = os.path.join(a.st_checkpoint_dir, "epoch.txt")
+start = int(open(ck).read()) if (a.ckpt and os.path.exists(ck)) else 0
+rf = os.path.join(a.st_checkpoint_dir, "run.txt")
+run = int(open(rf).read()) + 1 if os.path.exists(rf) else 0
+open(rf, "w").write(str(run))
+for epoch in range(start + 1, a.epochs + 1):
+    print("[tune-metric]: " + json.dumps({"epoch": epoch, "v": a.tid * 10000 + run * 100 + epoch,
+                                           "elapsed": 1.0 * (epoch - start)}), flush=True)
+    open(ck, "w").write(str(epoch))
+"""
+
+SIG_SIM_SLICE = {"backend": "SimulatorBackend._run_job_and_collect_results",
+                 "event": "resumed_job_replays_results_that_arrived_before_the_resume"}
+
+
+def gen_simscript_case(rng):
+    ntr = rng.randint(1, 2)
+    ops, started, state = [], 0, {}
+    nstarts = 0
+    for _ in range(rng.randint(6, 16)):
+        running = [i for i, s in state.items() if s == "run"]
+        paused = [i for i, s in state.items() if s == "paused"]
+        k = rng.choice(["adv"] * 4 + ["fetch"] * 4 + ["pause"] * 2 + ["stop", "resume", "resume", "start"])
+        if k == "start" or not state:
+            if started < ntr and nstarts < 4:
+                ops.append(["start", rng.randint(3, 6), 1])
+                state[started] = "run"
+                started += 1
+                nstarts += 1
+        elif k == "adv":
+            ops.append(["adv", rng.choice([0.5, 1.0, 1.5, 2.5])])
+        elif k == "fetch":
+            ids = [i for i in running if rng.random() < 0.6]
+            rng.shuffle(ids)
+            ops.append(["fetch", ids])
+        elif k in ("pause", "stop") and running:
+            i = rng.choice(running)
+            ops.append([k, i])
+            state[i] = "paused" if k == "pause" else "stopped"
+        elif k == "resume" and paused and nstarts < 4:
+            i = rng.choice(paused)
+            ops.append(["resume", i])
+            state[i] = "run"
+            nstarts += 1
+    ops += [["adv", 8.0], ["fetch", [i for i, s in state.items() if s == "run"]]]
+    return dict(kind="simscript", delays=rng.choice([[0, 0, 0, 0, 0], [0.0, 0.0, 0.25, 0.0, 0.75]]), ops=ops)
+
+
+def run_simscript(case, tmp):
+    """Raw operations on the real script based SimulatorBackend (simulated time advanced by hand)."""
+    import sys
+    from pathlib import Path
+    from fetch_scripted import FakeTime
+    from syne_tune.backend.simulator_backend.simulator_backend import SimulatorBackend, SimulatorConfig
+    script = Path(tmp) / "c02_train.py"
+    script.write_text(TRAIN_SCRIPT)
+    d = case["delays"]
+    evs, polls, timeline = [], [], []
+    cnt, stat = {}, {}
+    pred, conf, nrun, ckpt_epoch = {}, {}, {}, {}       # predicted std.out payloads per trial
+    arrived_at_resume = {}
+    old_path = os.environ.get("PATH", "")
+    os.environ["PATH"] = str(Path(sys.executable).parent) + os.pathsep + old_path
+    try:
+        with quiet(), mock.patch("syne_tune.backend.simulator_backend.time_keeper.time", FakeTime()):
+            b = SimulatorBackend(entry_point=str(script), elapsed_time_attr="elapsed",
+                                 simulator_config=SimulatorConfig(delay_on_trial_result=d[0], delay_complete_after_final_report=d[1],
+                                                                  delay_complete_after_stop=d[2], delay_start=d[3], delay_stop=d[4]))
+            b.set_path(tempfile.mkdtemp(prefix="exp-", dir=tmp))
+            b.time_keeper.start_of_time()
+
+            def snap():
+                return {tr.trial_id: (len(tr.metrics), tr.status) for tr in b._all_trial_results(list(b.trial_ids))}
+
+            def world(skip=None):
+                after = snap()
+                for tid in sorted(after):
+                    if tid == skip:
+                        continue
+                    n, st = after[tid]
+                    if n > cnt.get(tid, 0):
+                        evs.append("E (W (Emit %s %s))" % (natlit(tid), natlit(n - cnt.get(tid, 0))))
+                        cnt[tid] = n
+                    if st == "Completed" and stat.get(tid) != "Completed":
+                        evs.append("E (W (Finish %s))" % natlit(tid))
+                    stat[tid] = st
+                return after
+
+            def script_lines(tid):
+                n, ck = conf[tid]
+                start = ckpt_epoch.get(tid, 0) if ck else 0
+                run = nrun.get(tid, -1) + 1
+                nrun[tid] = run
+                lines = [tid * 10000 + run * 100 + e for e in range(start + 1, n + 1)]
+                if lines:
+                    ckpt_epoch[tid] = n
+                return lines
+
+            for op in case["ops"]:
+                if op[0] == "adv":
+                    b.time_keeper.advance(op[1])
+                elif op[0] == "start":
+                    tid = len(b.trial_ids)
+                    b.start_trial({"epochs": op[1], "ckpt": op[2], "tid": tid})
+                    world()
+                    conf[tid] = (op[1], op[2])
+                    pred[tid] = script_lines(tid)
+                    evs.append("E (Start %s)" % reps_t([(0, v) for v in pred[tid]]))
+                    timeline.append(("start", tid))
+                elif op[0] == "fetch":
+                    st, res = b.fetch_status_results(list(op[1]))
+                    world()
+                    evs.append("E (Fetch %s)" % lst([natlit(i) for i in op[1]]))
+                    polls.append(([(i, r["v"]) for i, r in res], [(i, st[i][1]) for i in op[1]]))
+                    for i, r in res:
+                        timeline.append(("result", i, r["v"]))
+                elif op[0] in ("pause", "stop"):
+                    tid = op[1]
+                    (b.pause_trial if op[0] == "pause" else b.stop_trial)(tid, None)
+                    after = snap()
+                    n = after.get(tid, (0, None))[0]
+                    evs.append("E (%s %s %s)" % ("PauseT" if op[0] == "pause" else "StopT", natlit(tid), natlit(n - cnt.get(tid, 0))))
+                    cnt[tid] = n
+                    stat[tid] = after.get(tid, (0, "InProgress"))[1]
+                    timeline.append((op[0], tid))
+                elif op[0] == "resume":
+                    tid = op[1]
+                    b.resume_trial(tid)
+                    world()
+                    arrived_at_resume.setdefault(tid, []).append(cnt.get(tid, 0))
+                    pred[tid] = pred[tid] + script_lines(tid)
+                    evs.append("ResumeScript %s %s" % (natlit(tid), reps_t([(0, v) for v in pred[tid]])))
+                    timeline.append(("resume", tid, cnt.get(tid, 0)))
+            from syne_tune.report import retrieve
+            real = {tid: [r["v"] for r in retrieve(b.stdout(tid))] for tid in b.trial_ids if os.path.exists(b.trial_path(tid) / "std.out")}
+    finally:
+        os.environ["PATH"] = old_path
+    return dict(evs=evs, polls=polls, timeline=timeline, pred=pred, real=real)
+
+
+def check_simscript(obs):
+    """model-free: nothing twice, in std.out order, nothing that arrived before a resume after it,
+    nothing while the trial is paused/stopped"""
+    bad = []
+    pos = {tid: {v: k for k, v in enumerate(lines)} for tid, lines in obs["real"].items()}
+    last, floor, off, seen_v = {}, {}, {}, set()
+    for ev in obs["timeline"]:
+        if ev[0] in ("pause", "stop"):
+            off[ev[1]] = ev[0]
+        elif ev[0] == "resume":
+            off[ev[1]] = None
+            floor[ev[1]] = ev[2]
+        elif ev[0] == "result":
+            _, tid, v = ev
+            k = pos.get(tid, {}).get(v)
+            if off.get(tid):
+                bad.append(("delivered_while_%s" % off[tid], dict(trial=tid, payload=v)))
+            if (tid, v) in seen_v:
+                bad.append(("SLICE", dict(trial=tid, payload=v, why="delivered twice")))
+            elif k is None:
+                bad.append(("delivered_result_not_in_stdout", dict(trial=tid, payload=v)))
+            elif k < floor.get(tid, 0):
+                bad.append(("SLICE", dict(trial=tid, payload=v, why="arrived (delivered or dropped) before the resume, delivered after it",
+                                          position=k, arrived_at_resume=floor[tid])))
+            elif k <= last.get(tid, -1):
+                bad.append(("delivered_out_of_order", dict(trial=tid, payload=v)))
+            seen_v.add((tid, v))
+            if k is not None:
+                last[tid] = max(last.get(tid, -1), k)
+    return bad
+
+
+SIMSCRIPT_DIRECTED = [
+    # a poll that does not cover the reporting trial (epochs 1, 2 dropped but counted), then epoch 3 delivered,
+    # pause, resume, polls to the end. The script checkpoints (as the script based simulator expects: it ran to
+    # completion, the resumed job writes nothing new), so the resumed job's results are the rest of std.out.
+    # (A script without checkpointing would make the slice mix elapsed times of two runs: not generated.)
+    dict(kind="simscript", delays=[0, 0, 0, 0, 0],
+         ops=[["start", 6, 1], ["adv", 2.5], ["fetch", []], ["adv", 1.0], ["fetch", [0]], ["pause", 0], ["resume", 0],
+              ["adv", 9.0], ["fetch", [0]]]),
+]
+
+
+def simscript_cases(ctx, replay, tmp):
+    rng = ctx.rng
+    if replay is not None:
+        if replay.get("kind") != "simscript":
+            return
+        cases = [replay]
+    else:
+        cases, starts, budget = list(SIMSCRIPT_DIRECTED), 2, ctx.n(14, 160)
+        while starts < budget:
+            c = gen_simscript_case(rng)
+            starts += sum(1 for o in c["ops"] if o[0] in ("start", "resume"))
+            cases.append(c)
+    terms, meta = [], []
+    for case in cases:
+        obs = run_simscript(case, tmp)
+        rcase = dict(kind="simscript", delays=case["delays"], ops=case["ops"])
+        nres = sum(len(b) for b, _ in obs["polls"])
+        ctx.count(("simscript", rcase), nontrivial=bool(nres >= 2 and any(o[0] == "resume" for o in case["ops"])))
+        ctx.h("simscript_script_starts", sum(1 for o in case["ops"] if o[0] in ("start", "resume")))
+        ctx.traces_validated += 1
+        if obs["pred"] != obs["real"]:
+            ctx.violation("correspondence", "driver: predicted std.out %s differs from the real one %s" % (obs["pred"], obs["real"]),
+                          case=rcase, failing_input=False, broken="driver c02 simscript (prediction of the training script's output)")
+            continue
+        for event, detail in check_simscript(obs):
+            if event == "SLICE":
+                sig = dict(SIG_SIM_SLICE)
+                what = "%s: trial %d: result %d %s" % (sig["backend"], detail["trial"], detail["payload"], detail["why"])
+            else:
+                sig = dict(backend="SimulatorBackend (script based)", event=event)
+                what = "%s: %s %s" % (sig["backend"], event, detail)
+            ctx.violation("property", what, case=dict(rcase, first_bad=detail, impl_polls=obs["polls"]), signature=sig)
+            break
+        terms.append("((%s, %s) : s_case)" % (
+            lst(["\n    " + e for e in obs["evs"]]),
+            lst(["(%s, %s)" % (lst(["(%s, %s)" % (natlit(i), zlit(v)) for i, v in b]),
+                               lst(["(%s, %s)" % (natlit(i), ST[s]) for i, s in sts])) for b, sts in obs["polls"]])))
+        meta.append(dict(rcase, impl_polls=obs["polls"]))
+    if terms:
+        for i in ctx.coq_bad_cases("simscript", IMPORTS, PRELUDE, "chk_s", terms, shard=60):
+            ctx.violation("correspondence", "model Fetch.v (Sim, script based resume slice) differs from the real SimulatorBackend", case=meta[i],
+                          failing_input=False, broken="correspondence chk_s (model/Fetch.v sstep / fetch_sim / take_nrf)")
+
+
+# ----------------------------------------------------------------------------------------------
 # D. tabular simulator: which results a resumed job replays
 # ----------------------------------------------------------------------------------------------
 def tabular_cases(ctx, replay):
@@ -771,6 +1016,7 @@ def run(ctx, replay=None):
         raw_cases(ctx, replay)
         tuner_cases(ctx, replay, sim=False)
         tuner_cases(ctx, replay, sim=True)
+        simscript_cases(ctx, replay, tmp)
         tabular_cases(ctx, replay)
     finally:
         if old is None:
